@@ -39,5 +39,12 @@ func (e StringCharTupleExpr) Eval(ctx context.Context, local Scope) (_ Value, er
 	if err != nil {
 		return nil, WrapContextErr(err, e, local)
 	}
-	return NewStringCharTuple(int(at.(Number).Float64()), rune(char.(Number).Float64())), nil
+	// NewTuple specialises the tuple only when both numbers fit exactly; a truncating cast would
+	// put (@: 0.5, @char: c) at index 0.
+	for _, v := range []Value{at, char} {
+		if _, is := v.(Number); !is {
+			return nil, WrapContextErr(fmt.Errorf("@ and @char must be numbers, not %s", ValueTypeAsString(v)), e, local)
+		}
+	}
+	return NewTuple(NewAttr("@", at), NewAttr(StringCharAttr, char)), nil
 }
